@@ -137,6 +137,81 @@ theorem edenB_stale_start_witness :
     withdrawEdenB ([EdenBOp.commit 100000, .burn 10000].foldl (edenBStep true) {}) = .ok { stored := 90000, started := 90000 } := by
   constructor <;> rfl
 
+/-! ### fee allocation in begin-block never exceeds the fees collected -/
+
+theorem tdiv_floor {a c : Int} (ha : 0 ≤ a) (hc : 0 < c) : a.tdiv c * c ≤ a ∧ 0 ≤ a.tdiv c := by
+  rw [Int.tdiv_eq_ediv_of_nonneg ha]
+  exact ⟨Int.ediv_mul_le a (by omega), Int.ediv_nonneg ha (by omega)⟩
+
+theorem reward_le {F f t T w : Int} (hP : 0 < P) (hT : 0 < T) (hF : 0 ≤ F) (hw : w * P ≤ F * f) (hf : f * T ≤ t * P) : w * T ≤ F * t := by
+  have h1 : w * P * T ≤ F * f * T := Int.mul_le_mul_of_nonneg_right hw (by omega)
+  have h2 : F * (f * T) ≤ F * (t * P) := Int.mul_le_mul_of_nonneg_left hf hF
+  have h3 : (w * T) * P ≤ (F * t) * P := by grind
+  exact Int.le_of_mul_le_mul_right h3 hP
+
+theorem allocate_inv (fees rep T : Int) (hf : 0 ≤ fees) (hr0 : 0 ≤ rep) (hT : 0 < T) (ts : List Int) (hts : ∀ t ∈ ts, 0 ≤ t) (R : Int)
+    (hR : (fees * rep).tdiv P * sumL ts ≤ R * T) : ∃ r, allocate fracTrunc fees rep T ts R = .ok r ∧ 0 ≤ r := by
+  have hP : 0 < P := by decide
+  obtain ⟨hF1, hF0⟩ := tdiv_floor (Int.mul_nonneg hf hr0) hP
+  induction ts generalizing R with
+  | nil =>
+    refine ⟨R, rfl, ?_⟩
+    simp only [sumL, Int.mul_zero] at hR
+    by_cases h : R < 0
+    · have : R * T < 0 := Int.mul_neg_of_neg_of_pos h hT
+      omega
+    · omega
+  | cons t ts ih =>
+    have ht : 0 ≤ t := hts t (List.mem_cons_self ..)
+    obtain ⟨hf1, hf0⟩ := tdiv_floor (Int.mul_nonneg ht (Int.le_of_lt hP)) hT
+    obtain ⟨hw1, hw0⟩ := tdiv_floor (Int.mul_nonneg hF0 hf0) hP
+    have hwT := reward_le hP hT hF0 hw1 hf1
+    have hS : 0 ≤ sumL ts := by
+      have : ∀ l : List Int, (∀ x ∈ l, 0 ≤ x) → 0 ≤ sumL l := by
+        intro l hl; induction l with
+        | nil => simp [sumL]
+        | cons x xs ihx => simp only [sumL]; have := hl x (List.mem_cons_self ..); have := ihx (fun y hy => hl y (List.mem_cons_of_mem _ hy)); omega
+      exact this ts (fun y hy => hts y (List.mem_cons_of_mem _ hy))
+    simp only [allocate, valReward, fracTrunc]
+    simp only [sumL] at hR
+    have hR' : (fees * rep).tdiv P * sumL ts ≤ (R - ((fees * rep).tdiv P * (t * P).tdiv T).tdiv P) * T := by grind
+    have hnn : ¬ (R - ((fees * rep).tdiv P * (t * P).tdiv T).tdiv P < 0) := by
+      intro hneg
+      have h1 : (R - ((fees * rep).tdiv P * (t * P).tdiv T).tdiv P) * T < 0 := Int.mul_neg_of_neg_of_pos hneg hT
+      have h2 : 0 ≤ (fees * rep).tdiv P * sumL ts := Int.mul_nonneg hF0 hS
+      omega
+    simp only [hnn, if_false]
+    exact ih (fun y hy => hts y (List.mem_cons_of_mem _ hy)) _ hR'
+
+/-- whatever the validators' tokens (any number of fee-sharing validators, any stakes summing to at most the total), whatever the
+fees and whatever community tax validation permits (representatives' fraction in [0, 1]): with TRUNCATED power fractions the
+running remainder of the allocation loop never goes negative, so `DecCoins.Sub` cannot panic in begin-block -/
+theorem allocation_within_fees (fees rep T : Int) (ts : List Int) (hf : 0 ≤ fees) (hr0 : 0 ≤ rep) (hr1 : rep ≤ P) (hT : 0 < T)
+    (hts : ∀ t ∈ ts, 0 ≤ t) (hsum : sumL ts ≤ T) : ∃ r, allocate fracTrunc fees rep T ts fees = .ok r ∧ 0 ≤ r := by
+  have hP : 0 < P := by decide
+  obtain ⟨hF1, hF0⟩ := tdiv_floor (Int.mul_nonneg hf hr0) hP
+  have hS : 0 ≤ sumL ts := by
+    have : ∀ l : List Int, (∀ x ∈ l, 0 ≤ x) → 0 ≤ sumL l := by
+      intro l hl; induction l with
+      | nil => simp [sumL]
+      | cons x xs ihx => simp only [sumL]; have := hl x (List.mem_cons_self ..); have := ihx (fun y hy => hl y (List.mem_cons_of_mem _ hy)); omega
+    exact this ts hts
+  have hFle : (fees * rep).tdiv P ≤ fees := by
+    have h1 : fees * rep ≤ fees * P := Int.mul_le_mul_of_nonneg_left hr1 hf
+    have h2 : (fees * rep).tdiv P * P ≤ fees * P := by omega
+    exact Int.le_of_mul_le_mul_right h2 hP
+  apply allocate_inv fees rep T hf hr0 hT ts hts fees
+  have h1 : (fees * rep).tdiv P * sumL ts ≤ fees * sumL ts := Int.mul_le_mul_of_nonneg_right hFle hS
+  have h2 : fees * sumL ts ≤ fees * T := Int.mul_le_mul_of_nonneg_left hsum hf
+  omega
+
+/-- WITNESS (the shape of seeded change C18-4): stakes 4 : 1 : 1, community tax 0, one USDC of fees: power fractions rounded to
+nearest sum to 1 + 10⁻¹⁸ and the third subtraction goes negative; truncated fractions leave a non-negative remainder. -/
+theorem allocation_rounded_witness :
+    allocate fracNearest (1000000 * P) P 1500000 [1000000, 250000, 250000] (1000000 * P) = .error .negativeCoin ∧
+    allocate fracTrunc (1000000 * P) P 1500000 [1000000, 250000, 250000] (1000000 * P) = .ok 2000000 := by
+  constructor <;> rfl
+
 /-- a user transaction that fails (error or recovered panic) leaves the state exactly as it was -/
 theorem tx_isolated {σ : Type} (s : σ) (tx : σ → Except Unit σ) (h : tx s = .error ()) : runTx s tx = s := by
   simp [runTx, h]
